@@ -169,3 +169,15 @@ Definition sstep (rows maxacc : Z) (prezero : bool) (L : Z -> Z) (U : Z) (o : vo
       else if (U <? s + n) && (U <? s) then (L, U, inl BadVirtualAccess)      (* a writer must not skip rows *)
       else (fun r => if (s <=? r) && (r <? s + n) then nth (Z.to_nat (r - s)) vals 0 else L r, Z.max U (s + n), inr [])
   end.
+
+Fixpoint vrun (a : varray) (ops : list vop) : varray * list (aerr + list (option Z)) :=
+  match ops with
+  | [] => (a, [])
+  | o :: r => let (a', x) := vstep a o in let (a'', xs) := vrun a' r in (a'', x :: xs)
+  end.
+
+Fixpoint srun (rows maxacc : Z) (prezero : bool) (L : Z -> Z) (U : Z) (ops : list vop) : list (aerr + list (option Z)) :=
+  match ops with
+  | [] => []
+  | o :: r => let '(L', U', x) := sstep rows maxacc prezero L U o in x :: srun rows maxacc prezero L' U' r
+  end.
